@@ -11,9 +11,10 @@ from vf.ref import blk_ref, iso_ref, vbs_ref
 PROPERTY = 'C10'
 LEVEL = 'fault_enumeration'
 
-KINDS = ['truncated', 'oversized_length', 'bad_mti', 'unknown_bit', 'bad_field_length', 'bad_typed_value',
+OVERSIZED = ['00001771', '40404040', 'ffffffff', '80000000', '00010000', '7fffffff', '00404040', 'f0f0f0f0']
+KINDS = ['truncated', 'oversized_length'] + ['oversized_length:' + h for h in OVERSIZED[1:]] + ['bad_mti', 'unknown_bit', 'bad_field_length', 'bad_typed_value',
          'bad_pds', 'bad_icc', 'trailing_byte', 'negative_length']
-FRAMING = ('truncated', 'oversized_length')
+FRAMING = tuple(['truncated', 'oversized_length'] + ['oversized_length:' + h for h in OVERSIZED[1:]])
 
 
 def good_message(i):
@@ -102,8 +103,8 @@ def build(case):
             # cut the blocked FILE at the corresponding byte (blocking a cut stream would pad it with fill)
             return blk_ref.block(stream)[:cut + 2 * (cut // 1012)], recs, raw_k
         stream = stream[:cut]
-    elif kind == 'oversized_length':
-        big = (6001).to_bytes(4, 'big')
+    elif kind.startswith('oversized_length'):
+        big = bytes.fromhex(kind.split(':')[1]) if ':' in kind else (6001).to_bytes(4, 'big')
         stream = stream[:offs[k - 1]] + big + stream[offs[k - 1] + 4:]
         raw_k = stream[offs[k - 1]:]
     data = blk_ref.block(stream) if blocked else stream
@@ -134,6 +135,7 @@ def check_case(case, acc):
         return          # the single-byte change left a decodable record (or one C08 judges): nothing to report
     if kind.startswith('mut:'):
         kind = 'mutation'
+    kind = kind.split(':')[0]
     if err is None:
         acc.viol('c10.no_error.%s' % kind, case, 'iteration ended after %d records' % len(got),
                  'MciIpmDataError for record %d' % k)
